@@ -430,12 +430,15 @@ func (v *Verifier) verifyCase(fi *FuncInfo, con *Contract, rep *FuncReport, case
 					fr.resultV = []Val{}
 				}
 			}
+			saveScope := fr.scopeAt
+			fr.scopeAt = fi.RegionStmt.End() // names the statement itself declares (x, err := ...) are visible
 			for _, cl := range clauses {
 				t := v.asBool(v.evalSpec(fr, o, cl.Expr), fi.RegionStmt.Pos())
 				v.curClauseObj = cl
 				v.obligeNamed(fr, o, fmt.Sprintf("%s%d", what, cl.Ord), fi.RegionStmt.Pos(), t, "region "+what+": "+cl.Text)
 				v.curClauseObj = nil
 			}
+			fr.scopeAt = saveScope
 			fr.resultV = nil
 			rp := o.retPos
 			if o.ctl != CtlReturn || rp == token.NoPos {
